@@ -107,6 +107,8 @@ def replace_on_success(ck, ctx):
 
 
 def missing_not_error(ck, ctx):
+    from . import C06 as R06
+    R06.worker_panics(ck, ctx, rule="missing-not-error")
     D.files_missing(ck, ctx, rule="missing-not-error")
     # after a run the manifest hash (which panics on a Missing file) is computed only when every hashed input category -- the
     # discovered dependencies included -- was re-stat'ed and found present
